@@ -2,7 +2,7 @@
    Statements only; every proof is `exact <lemma>`. *)
 From Coq Require Import List ZArith Bool.
 From Coq.Init Require Import Byte.
-From Sif Require Import Bytes Store Format Image Integrity IntegFacts C07Facts C17Facts IntegExamples.
+From Sif Require Import Bytes Store Format Image Integrity IntegFacts C07Facts C17Facts LegacyCover TasksSpec IntegExamples.
 Import ListNotations.
 Local Open Scope Z_scope.
 
@@ -22,6 +22,18 @@ Theorem C17_listings_exact :
       (exists fps, In fps per_task /\ In fp fps) /\
       (any = true \/ forall fps, In fps per_task -> In fp fps).
 Proof. exact signed_by_exact. Qed.
+
+(* the selected verification tasks: exactly one per named group and per named
+   object (OptVerifyLegacyAll names every live grouped non-signature object),
+   of the requested kind; with nothing named, one per group present.  No
+   named group or object is dropped, whatever else is named beside it. *)
+Theorem C17_selected_tasks_are_exactly_the_named_ones :
+  forall m vo ts,
+  new_verifier m vo = inl ts ->
+  forall t, In t ts <->
+    (exists g ods, named_group m vo g /\ group_objects m g = inl ods /\ t = group_task vo g ods) \/
+    (exists id od, named_object m vo id /\ get_descriptor_i m id = inl od /\ t = object_task vo od).
+Proof. exact new_verifier_tasks. Qed.
 
 (* after a successful verification of the same tasks - PARTIAL: a fingerprint
    recorded on a clear-signed (PGP) signature is that of the entity whose
@@ -51,5 +63,6 @@ Theorem C17_dsse_fingerprint_refuted :
 Proof. exact dsse_signature_lists_a_fingerprint_nobody_signed_with. Qed.
 
 Print Assumptions C17_listings_exact.
+Print Assumptions C17_selected_tasks_are_exactly_the_named_ones.
 Print Assumptions C17_listed_pgp_fingerprint_is_the_signer_partial.
 Print Assumptions C17_dsse_fingerprint_refuted.
